@@ -3,6 +3,7 @@
    root tree R in which every memoised id resolves (HG) to the value of the object carrying it. *)
 From Skv Require Import PyStrFacts CodecGuards CodecWfFacts PyValInd NodeInd TreeIds GraphAudit ConstructFacts.
 From Coq Require Import Lia.
+From Skv Require Import CodecMemberFacts.
 From Skv Require Import CodecTreeFacts.
 
 Section Maps.
@@ -108,6 +109,10 @@ Section Share.
   Hypothesis Hreg : reg_ok (e_reg E) (e_cur E) = true.
   Hypothesis HC : c_namedtuples C = f_namedtuples F /\ c_missing C = f_missing F.
   Hypothesis Hsane : facts_sane F = true.
+  (* the file table and the member list of the archive being loaded *)
+  Hypothesis HFone : forall h x1 x2, In (h, x1) files -> In (h, x2) files -> x1 = x2.
+  Hypothesis HEC : e_members E = map fst (c_members C).
+  Hypothesis HCg : c_generic C = f_generic F.
   Let proto : json := JInt (e_cur E).
 
   Lemma disp l tag : In (l, tag) frag_loaders -> dispatch (e_reg E) (e_cur E) (JStr l) proto = Ok (Some tag).
@@ -198,14 +203,44 @@ Section Share.
   Qed.
 
   (* result of loading the state of v at slot sl under memo m *)
+  (* objects that own a zip member named after their id *)
+  Definition ofile (w : pval) : option (pstr * blob) :=
+    match w with
+    | PArr id _ _ _ tok => Some (npy_name id, (MNpy, tok))
+    | PSparse id _ _ tok => Some (npz_name id, (MNpz, tok))
+    | _ => None
+    end.
+  (* every member written so far belongs to an object of the value or to a dtype carrier array *)
+  Definition MOK (st : dst) : Prop :=
+    forall f b, dget f (d_members st) = Some b ->
+      (exists w, Objs w /\ ofile w = Some (f, b)) \/ (exists i, (base <= i < d_next st)%Z /\ f = npy_name i).
+  (* every entry of the file table of j names the member of the object carrying the id *)
+  Definition FTd (j : json) : Prop :=
+    forall h x, In (h, x) (file_table j) ->
+      exists i, h = key i /\ ((exists w f b, Objs w /\ pid w = i /\ ofile w = Some (f, b) /\ x = JStr f)
+                              \/ ((base <= i)%Z /\ x = JStr (npy_name i))).
+  Definition Post (st : dst) (j : json) (st' : dst) : Prop :=
+    lk_incl (d_members st) (d_members st') /\ FTd j /\ (MOK st -> MOK st').
+  Definition Pre (st : dst) (j : json) (st' : dst) : Prop :=
+    MOK st /\ lk_incl (d_members st') (c_members C) /\ incl (file_table j) files.
+
+  Lemma FTd_nil j : file_table j = [] -> FTd j.
+  Proof. intros H h x Hin. rewrite H in Hin. destruct Hin. Qed.
+  Lemma Post_same st j : file_table j = [] -> Post st j st.
+  Proof. intros H. split; [apply lk_refl|]. split; [apply FTd_nil; exact H|auto]. Qed.
+  Lemma MOK_next st st' : d_members st' = d_members st -> (d_next st <= d_next st')%Z -> MOK st -> MOK st'.
+  Proof.
+    intros Hm Hn H f b Hd. rewrite Hm in Hd. destruct (H f b Hd) as [Hw|[i [Hi Hf]]]; [left; exact Hw|right]. exists i. split; [lia|exact Hf].
+  Qed.
+
   Definition notleaf (n : node) : bool := match n with Leaf _ _ => false | _ => true end.
   Definition Res (v : pval) (sl : slot) (m : memo) (n : node) (m' : memo) (B' : Z) : Prop :=
     node_slot n = sl /\ notleaf n = true /\ mono m m' /\ grow m [n] m' /\ memo_lt m' B' /\ Spec n v m /\ allok n m'.
 
   Definition Q (v : pval) : Prop :=
     forall st j st', get_state D v st = Ok (j, st') -> (base <= d_next st)%Z ->
-      d_late st' = d_late st /\ (d_next st <= d_next st')%Z /\
-      forall fuel m sl, (need v <= fuel)%nat -> memo_lt m (d_next st) ->
+      d_late st' = d_late st /\ (d_next st <= d_next st')%Z /\ Post st j st' /\
+      forall fuel m sl, (need v <= fuel)%nat -> memo_lt m (d_next st) -> Pre st j st' ->
         exists n m', get_tree fuel E proto [] sl m j = Ok (n, m') /\ Res v sl m n m' (d_next st').
 
   Lemma memo_lt_le m B B' : (B <= B')%Z -> memo_lt m B -> memo_lt m B'.
@@ -260,25 +295,38 @@ Section Share.
     eapply ids_sub; eauto.
   Qed.
 
+  Definition PostL (st : dst) (js : list json) (st' : dst) : Prop :=
+    lk_incl (d_members st) (d_members st') /\ (forall j, In j js -> FTd j) /\ (MOK st -> MOK st').
+  Definition PreL (st : dst) (js : list json) (st' : dst) : Prop :=
+    MOK st /\ lk_incl (d_members st') (c_members C) /\ (forall j, In j js -> incl (file_table j) files).
+
   Lemma gen_share l : Forall Q l ->
     forall st js st', states_of (fun x s0 => get_state D x s0) l st = Ok (js, st') -> (base <= d_next st)%Z ->
-      d_late st' = d_late st /\ (d_next st <= d_next st')%Z /\ length js = length l /\
+      d_late st' = d_late st /\ (d_next st <= d_next st')%Z /\ length js = length l /\ PostL st js st' /\
       forall fuel m sls, (forall x, In x l -> (need x <= fuel)%nat) -> memo_lt m (d_next st) -> length sls = length l ->
+        PreL st js st' ->
         exists ns m', sub_gen (get_tree fuel E proto []) (combine sls js) m = Ok (ns, m')
           /\ Forall2 (fun n sl => node_slot n = sl /\ notleaf n = true) ns sls
           /\ mono m m' /\ grow m ns m' /\ memo_lt m' (d_next st') /\ LSpec ns l m /\ (forall x, In x ns -> allok x m').
   Proof.
     induction 1 as [|x l Hx Hl IH]; intros st js st' H Hb; cbn [states_of] in H.
-    - injection H as <- <-. split; [reflexivity|]. split; [lia|]. split; [reflexivity|]. intros fuel m sls _ Hm Hlen.
+    - injection H as <- <-. split; [reflexivity|]. split; [lia|]. split; [reflexivity|].
+      split; [split; [apply lk_refl|split; [intros j []|auto]]|]. intros fuel m sls _ Hm Hlen _.
       destruct sls; [|discriminate Hlen]. exists [], m. cbn [combine sub_gen].
       split; [reflexivity|]. split; [constructor|]. split; [apply mono_refl|].
       split; [intros h Hh; left; exact Hh|]. split; [exact Hm|]. split; [|intros ? []].
       intros R K _ _ _ _. constructor.
-    - inv_bind H. destruct (Hx _ _ _ E0 Hb) as [Hl1 [Hn1 Hx1]]. destruct (IH _ _ _ E1 ltac:(lia)) as [Hl2 [Hn2 [Hlen2 IH1]]].
-      split; [congruence|]. split; [lia|]. split; [cbn [length]; congruence|]. intros fuel m sls Hn Hm Hlen.
+    - inv_bind H. destruct (Hx _ _ _ E0 Hb) as [Hl1 [Hn1 [[Hlk1 [Hft1 Hmok1]] Hx1]]].
+      destruct (IH _ _ _ E1 ltac:(lia)) as [Hl2 [Hn2 [Hlen2 [[Hlk2 [Hft2 Hmok2]] IH1]]]].
+      split; [congruence|]. split; [lia|]. split; [cbn [length]; congruence|].
+      split.
+      { split; [eapply lk_trans; eauto|]. split; [intros j0 [<-|Hj]; auto|auto]. }
+      intros fuel m sls Hn Hm Hlen [Hmok [Hlkc Hfiles]].
       destruct sls as [|sl sls]; [discriminate Hlen|]. cbn [length] in Hlen. cbn [combine sub_gen].
       destruct (Hx1 fuel m sl (Hn _ (or_introl eq_refl)) Hm) as [n [m1 [Hg [Hsl [Hnl [Hmo [Hgr [Hlt [Hsp Hal]]]]]]]]].
+      { split; [exact Hmok|]. split; [eapply lk_trans; eauto|apply Hfiles; left; reflexivity]. }
       destruct (IH1 fuel m1 sls (fun y Hy => Hn y (or_intror Hy)) Hlt ltac:(lia)) as [ns [m2 [Hg2 [Hsl2 [Hmo2 [Hgr2 [Hlt2 [Hls Hal2]]]]]]]].
+      { split; [auto|]. split; [exact Hlkc|intros j0 Hj; apply Hfiles; right; exact Hj]. }
       exists (n :: ns), m2. rewrite Hg. cbn [bind]. rewrite Hg2. cbn [bind]. split; [reflexivity|].
       split; [constructor; auto|]. split; [eapply mono_trans; eauto|]. split.
       { intros h Hh. destruct (Hgr2 h Hh) as [H|H].
@@ -300,15 +348,15 @@ Section Share.
 
   Lemma states_share l : Forall Q l ->
     forall st js st', states_of (fun x s0 => get_state D x s0) l st = Ok (js, st') -> (base <= d_next st)%Z ->
-      d_late st' = d_late st /\ (d_next st <= d_next st')%Z /\
-      forall fuel m name, (forall x, In x l -> (need x <= fuel)%nat) -> memo_lt m (d_next st) ->
+      d_late st' = d_late st /\ (d_next st <= d_next st')%Z /\ PostL st js st' /\
+      forall fuel m name, (forall x, In x l -> (need x <= fuel)%nat) -> memo_lt m (d_next st) -> PreL st js st' ->
         exists ns m', sub_list (get_tree fuel E proto) [] name m js = Ok (ns, m')
           /\ Forall (fun n => node_slot n = SElem name /\ notleaf n = true) ns /\ length ns = length l
           /\ mono m m' /\ grow m ns m' /\ memo_lt m' (d_next st') /\ LSpec ns l m /\ (forall x, In x ns -> allok x m').
   Proof.
-    intros Hl st js st' H Hb. destruct (gen_share l Hl _ _ _ H Hb) as [H1 [H2 [Hlen HG0]]]. split; [exact H1|]. split; [exact H2|].
-    intros fuel m name Hn Hm.
-    destruct (HG0 fuel m (map (fun _ => SElem name) js) Hn Hm ltac:(rewrite map_length; exact Hlen)) as [ns [m' [Hs [Hf2 Hrest]]]].
+    intros Hl st js st' H Hb. destruct (gen_share l Hl _ _ _ H Hb) as [H1 [H2 [Hlen [Hpost HG0]]]]. split; [exact H1|]. split; [exact H2|].
+    split; [exact Hpost|]. intros fuel m name Hn Hm Hpre.
+    destruct (HG0 fuel m (map (fun _ => SElem name) js) Hn Hm ltac:(rewrite map_length; exact Hlen) Hpre) as [ns [m' [Hs [Hf2 Hrest]]]].
     exists ns, m'. rewrite sub_list_gen, <- combine_const. split; [exact Hs|].
     split.
     { clear -Hf2. remember (map (fun _ : json => SElem name) js) as sls eqn:Es. revert js Es.
@@ -378,7 +426,7 @@ Section Share.
 
   Lemma scalar_Q id sc : Objs (PScalar id sc) -> scalar_rt_ok sc = true -> Q (PScalar id sc).
   Proof.
-    intros Hv Hrt st j st' H Hb. cbn [get_state] in H. injection H as <- <-. split; [reflexivity|]. split; [lia|].
+    intros Hv Hrt st j st' H Hb. cbn [get_state] in H. injection H as <- <-. split; [reflexivity|]. split; [lia|]. split; [apply Post_same; reflexivity|]. intros fuel0 m0 sl0 Hn0 Hm0 _; revert fuel0 m0 sl0 Hn0 Hm0.
     unfold json_state. apply (leaf_Q (PScalar id sc) _ _ _ _ (s "_general.JsonNode") KJson (fun h => set_aux h (JStr (json_text sc))) []);
       try assumption; try reflexivity; try lia.
     - cbn; tauto.
@@ -394,7 +442,7 @@ Section Share.
 
   Lemma func_Q id mo c : Objs (PFunc id mo c) -> resolvable F mo c = true -> Q (PFunc id mo c).
   Proof.
-    intros Hv Hr st j st' H Hb. cbn [get_state] in H. injection H as <- <-. split; [reflexivity|]. split; [lia|].
+    intros Hv Hr st j st' H Hb. cbn [get_state] in H. injection H as <- <-. split; [reflexivity|]. split; [lia|]. split; [apply Post_same; reflexivity|]. intros fuel0 m0 sl0 Hn0 Hm0 _; revert fuel0 m0 sl0 Hn0 Hm0.
     apply (leaf_Q (PFunc id mo c) _ _ _ _ (s "_general.FunctionNode") KFunction (fun h => h) []);
       try assumption; try reflexivity; try lia.
     - cbn; tauto.
@@ -409,7 +457,7 @@ Section Share.
 
   Lemma type_Q id mo c : Objs (PType id mo c) -> resolvable F mo c = true -> Q (PType id mo c).
   Proof.
-    intros Hv Hr st j st' H Hb. cbn [get_state] in H. injection H as <- <-. split; [reflexivity|]. split; [lia|].
+    intros Hv Hr st j st' H Hb. cbn [get_state] in H. injection H as <- <-. split; [reflexivity|]. split; [lia|]. split; [apply Post_same; reflexivity|]. intros fuel0 m0 sl0 Hn0 Hm0 _; revert fuel0 m0 sl0 Hn0 Hm0.
     unfold type_state. apply (leaf_Q (PType id mo c) _ _ _ _ (s "_general.TypeNode") KType (fun h => h) []);
       try assumption; try reflexivity; try lia.
     - cbn; tauto.
@@ -426,12 +474,15 @@ Section Share.
     bound_supported a = true -> bound_supported b = true -> bound_supported c = true -> Q (PSlice id a b c).
   Proof.
     intros Hv Ha Hb0 Hc0 st j st' H Hb. cbn [get_state] in H.
-    assert (Hsb : forall x st0, bound_supported x = true -> exists jx, sbound_json x st0 = Ok (jx, st0) /\ raw_bound jx = Ok x).
-    { intros x st0 Hx. destruct x as [[| | | |]|]; try discriminate Hx; eexists; (split; reflexivity). }
-    destruct (Hsb a st Ha) as [ja [Ea Ra]]. rewrite Ea in H. cbn [bind] in H.
-    destruct (Hsb b st Hb0) as [jb [Eb Rb]]. rewrite Eb in H. cbn [bind] in H.
-    destruct (Hsb c st Hc0) as [jc [Ec Rc]]. rewrite Ec in H. cbn [bind] in H.
-    injection H as <- <-. split; [reflexivity|]. split; [lia|].
+    assert (Hsb : forall x st0, bound_supported x = true -> exists jx, sbound_json x st0 = Ok (jx, st0) /\ raw_bound jx = Ok x /\ file_table jx = []).
+    { intros x st0 Hx. destruct x as [[| | | |]|]; try discriminate Hx; eexists; (split; [reflexivity|split; reflexivity]). }
+    destruct (Hsb a st Ha) as [ja [Ea [Ra Fa]]]. rewrite Ea in H. cbn [bind] in H.
+    destruct (Hsb b st Hb0) as [jb [Eb [Rb Fb]]]. rewrite Eb in H. cbn [bind] in H.
+    destruct (Hsb c st Hc0) as [jc [Ec [Rc Fc]]]. rewrite Ec in H. cbn [bind] in H.
+    injection H as <- <-. split; [reflexivity|]. split; [lia|]. split.
+    { apply Post_same. match goal with |- file_table ?j0 = [] =>
+        change (file_table j0) with ((file_table ja ++ file_table jb ++ file_table jc ++ []) ++ []) end.
+      rewrite Fa, Fb, Fc. reflexivity. } intros fuel0 m0 sl0 Hn0 Hm0 _; revert fuel0 m0 sl0 Hn0 Hm0.
     apply (leaf_Q (PSlice id a b c) _ _ _ _ (s "_general.SliceNode") KSlice (fun h => h)
              [Leaf (SOne (GetTree.K "start")) (LRaw ja); Leaf (SOne (GetTree.K "stop")) (LRaw jb); Leaf (SOne (GetTree.K "step")) (LRaw jc)]);
       try assumption; try reflexivity; try lia.
@@ -457,13 +508,13 @@ Section Share.
     (Objs v \/ (base <= id)%Z) -> (0 < id)%Z -> seq_cls q c -> Forall Q l ->
     states_of (fun x s0 => get_state D x s0) l st0 = Ok (l0, st') -> (base <= d_next st0)%Z ->
     forall fuel m sl B, (need v <= S fuel)%nat -> memo_lt m B -> (id < B)%Z -> (B <= d_next st0)%Z ->
-      memo_mem (key id) m = false ->
+      memo_mem (key id) m = false -> PreL st0 l0 st' ->
       exists n m', build E (get_tree fuel E proto) sl [] (seq_tag q) (seq_kind q) m
                      (node_state c (s "builtins") (seq_loader q) [(CodecDump.K "content", JArr l0)] id) = Ok (n, m')
                    /\ Res v sl m n m' (d_next st').
   Proof.
-    intros v Hv Hid Hc Hl E0 Hb fuel m sl B Hn Hm HidB HB Hmem.
-    destruct (states_share l Hl _ _ _ E0 Hb) as [Hlate [Hnext HL]].
+    intros v Hv Hid Hc Hl E0 Hb fuel m sl B Hn Hm HidB HB Hmem HpreL.
+    destruct (states_share l Hl _ _ _ E0 Hb) as [Hlate [Hnext [_ HL]]].
     set (ld := seq_loader q). set (tag := seq_tag q). set (k := seq_kind q). cbn [need v] in Hn.
     assert (Hbd : build E (get_tree fuel E proto) sl [] tag k m (node_state c (s "builtins") ld [(CodecDump.K "content", JArr l0)] id)
             = do (h, m0) <- node_init sl k tag [] true m (node_state c (s "builtins") ld [(CodecDump.K "content", JArr l0)] id) JNull;
@@ -474,6 +525,7 @@ Section Share.
     destruct (HL fuel (key id :: m) (GetTree.K "content")) as [ns [m1 [Hsub [Hsl [Hlen [Hmo [Hgr [Hlt [Hls Hal]]]]]]]]].
     { intros x Hx. pose proof (max_map_in (fun x => need x) x l Hx). cbn beta in *. lia. }
     { apply memo_lt_cons; [lia|]. eapply memo_lt_le; eauto. }
+    { exact HpreL. }
     rewrite Hsub. cbn [bind]. eexists. eexists. split; [reflexivity|].
     set (hd := mkh sl k tag id c (s "builtins") JNull).
     set (subs := or_empty (GetTree.K "content") LEmptyList ns).
@@ -521,7 +573,16 @@ Section Share.
   Proof.
     intros Hv Hc Hl st j st1 H Hb. cbn [get_state] in H.
     destruct (states_of _ l st) as [[l0 st']|] eqn:E0; [|discriminate]. cbn [bind] in H. injection H as <- <-.
-    destruct (states_share l Hl _ _ _ E0 Hb) as [Hlate [Hnext _]]. split; [exact Hlate|]. split; [exact Hnext|].
+    destruct (states_share l Hl _ _ _ E0 Hb) as [Hlate [Hnext [[Hlk [Hft Hmok]] _]]]. split; [exact Hlate|]. split; [exact Hnext|].
+    assert (Hftj : forall c0 ld0, file_table (node_state c0 (s "builtins") ld0 [(CodecDump.K "content", JArr l0)] id) = flat_map file_table l0).
+    { intros c0 ld0. rewrite ft_node_state by reflexivity. cbn [dget flat_map snd app]. rewrite file_table_arr, app_nil_r.
+      change (pstr_eqb (s "file") (CodecDump.K "content")) with false. reflexivity. }
+    split.
+    { split; [exact Hlk|]. split; [|exact Hmok]. intros h x Hin. rewrite Hftj in Hin. apply in_flat_map in Hin. destruct Hin as [j0 [Hj0 Hin]].
+      exact (Hft j0 Hj0 h x Hin). }
+    intros fuel0 m0 sl0 Hn0 Hm0 [HpMOK [HpLk HpF]]. revert fuel0 m0 sl0 Hn0 Hm0.
+    assert (HpreL : PreL st l0 st').
+    { split; [exact HpMOK|]. split; [exact HpLk|]. intros j0 Hj0 e He. apply HpF. rewrite Hftj. apply in_flat_map. exists j0. auto. }
     pose proof (Oid _ Hv) as Hid. cbn [pid] in Hid.
     set (v := PSeq q id (s "builtins") c false l).
     change (forall fuel m sl, (need v <= fuel)%nat -> memo_lt m (d_next st) ->
@@ -650,6 +711,41 @@ Section Share.
   Lemma combine_fst_snd {A B} (l : list (A * B)) : combine (map fst l) (map snd l) = l.
   Proof. induction l as [|[a b] l IH]; [reflexivity|]. cbn [map fst snd combine]. rewrite IH. reflexivity. Qed.
 
+  Lemma kts_no_files ks : forall kts, key_type_states D ks = Ok kts -> forall j, In j kts -> file_table j = [].
+  Proof.
+    induction ks as [|k ks IH]; intros kts H; cbn [key_type_states] in H.
+    - injection H as <-. intros j [].
+    - destruct (dget _ _) as [tid|]; [|discriminate]. destruct (key_type_states D ks) as [rest|]; [|discriminate]. cbn [bind] in H.
+      injection H as <-. intros j [<-|Hj]; [reflexivity|eapply IH; eauto].
+  Qed.
+
+  Lemma states_are_objs l : forall st js st', states_of (fun x s0 => get_state D x s0) l st = Ok (js, st') ->
+    forall j, In j js -> exists kv, j = JObj kv.
+  Proof.
+    induction l as [|x l IH]; intros st js st' H; cbn [states_of] in H.
+    - injection H as <- <-. intros j [].
+    - inv_bind H. intros j0 [<-|Hj]; [|eapply IH; eauto]. destruct (root_fields _ _ _ _ _ E0) as [kv [-> _]]. eauto.
+  Qed.
+
+  Lemma ft_own_states cont : (forall k x, In (k, x) cont -> exists kv, x = JObj kv) -> ft_own cont = [].
+  Proof.
+    intros H. unfold ft_own. destruct (dget (s "file") cont); [|reflexivity]. destruct (dget (s "__id__") cont) as [i|] eqn:Ei; [|reflexivity].
+    assert (Hin : In (s "__id__", i) cont).
+    { clear -Ei. induction cont as [|[k x] cont IH]; cbn [dget] in Ei; [discriminate|]. destruct (pstr_eqb (s "__id__") k) eqn:Eq.
+      - injection Ei as ->. apply pstr_eqb_eq in Eq. subst. left. reflexivity.
+      - right. auto. }
+    destruct (H _ _ Hin) as [kv ->]. reflexivity.
+  Qed.
+
+  Lemma ft_content texts js : length texts = length js -> (forall j, In j js -> exists kv, j = JObj kv) ->
+    file_table (JObj (combine texts js)) = flat_map file_table js.
+  Proof.
+    intros Hlen Hobj. rewrite file_table_obj, ft_own_states.
+    - cbn [app]. revert js Hlen Hobj. induction texts as [|t0 texts IH]; intros [|j js] Hlen Hobj; try discriminate Hlen; [reflexivity|].
+      cbn [combine flat_map snd]. f_equal. apply IH; [cbn [length] in Hlen; lia|intros j0 Hj0; apply Hobj; right; exact Hj0].
+    - intros k x Hin. apply in_combine_r in Hin. auto.
+  Qed.
+
   Definition dict_cls (mo c : pstr) : Prop :=
     (mo = s "builtins" /\ c = s "dict") \/ (mo = s "collections" /\ c = s "OrderedDict").
 
@@ -660,8 +756,9 @@ Section Share.
     Forall (fun kv => is_prop (snd kv) = false) items -> Forall Q (map snd items) ->
     fresh st = (ktid, st0) -> key_type_states D (map fst items) = Ok kts ->
     content_of (fun x s0 => get_state D x s0) items [] st0 = Ok (cont, st') ->
-    d_late st' = d_late st /\ (d_next st <= d_next st')%Z /\
+    d_late st' = d_late st /\ (d_next st <= d_next st')%Z /\ Post st (dict_state c mo cont kts ktid id) st' /\
     forall fuel m sl, (need v <= S fuel)%nat -> memo_lt m (d_next st) -> memo_mem (key id) m = false ->
+      Pre st (dict_state c mo cont kts ktid id) st' ->
       exists n m', build E (get_tree fuel E proto) sl [] (s "_general.DictNode") KDict m (dict_state c mo cont kts ktid id) = Ok (n, m')
                    /\ Res v sl m n m' (d_next st').
   Proof.
@@ -673,10 +770,24 @@ Section Share.
       destruct (Hkeys (fst kv) (in_map fst _ _ Hkv)) as [sc [tv [E1 _]]]. congruence. }
     { exact Hnd. }
     cbn [app] in Hc.
-    destruct (gen_share (map snd items) HQ _ _ _ Hstates ltac:(unfold st0; cbn [d_next]; lia)) as [Hlate [Hnext [Hlen HG0]]].
+    destruct (gen_share (map snd items) HQ _ _ _ Hstates ltac:(unfold st0; cbn [d_next]; lia)) as [Hlate [Hnext [Hlen [[HLlk [HLft HLmok]] HG0]]]].
     unfold st0 in Hlate, Hnext; cbn [d_next d_late] in Hlate, Hnext. split; [exact Hlate|]. split; [lia|].
     destruct (kt_states _ _ Hkts) as [tvs [Htv Hts]].
-    intros fuel m sl Hn Hm Hmem. cbn [need v] in Hn. destruct fuel as [|fuel]; [lia|].
+    assert (Hjobj : forall j0, In j0 js -> exists kv, j0 = JObj kv) by (eapply states_are_objs; eauto).
+    assert (Hftj : file_table (dict_state c mo cont kts (d_next st) id) = flat_map file_table js).
+    { unfold dict_state. rewrite ft_node_state by reflexivity. cbn [dget flat_map snd app].
+      change (pstr_eqb (s "file") (CodecDump.K "content")) with false. change (pstr_eqb (s "file") (CodecDump.K "key_types")) with false. cbn iota.
+      rewrite Hc, ft_content; [|rewrite map_length, Hlen, map_length; reflexivity|exact Hjobj].
+      unfold list_state. rewrite ft_node_state by reflexivity. cbn [dget flat_map snd app].
+      change (pstr_eqb (s "file") (CodecDump.K "content")) with false. cbn iota. rewrite file_table_arr.
+      replace (flat_map file_table kts) with (@nil (hkey * json)); [rewrite !app_nil_r; reflexivity|].
+      symmetry. pose proof (kts_no_files _ _ Hkts) as Hk0. clear -Hk0. induction kts as [|j0 kts IH]; [reflexivity|]. cbn [flat_map].
+      rewrite (Hk0 j0 (or_introl eq_refl)). apply IH. intros j1 Hj1. apply Hk0. right. exact Hj1. }
+    assert (Hmok0 : MOK st -> MOK st0) by (intros Hm0; apply (MOK_next st st0); [reflexivity|unfold st0; cbn [d_next]; lia|exact Hm0]).
+    split.
+    { split; [exact HLlk|]. split; [|auto]. intros h x Hin. rewrite Hftj in Hin. apply in_flat_map in Hin. destruct Hin as [j0 [Hj0 Hin]].
+      exact (HLft j0 Hj0 h x Hin). }
+    intros fuel m sl Hn Hm Hmem [HpMOK [HpLk HpF]]. cbn [need v] in Hn. destruct fuel as [|fuel]; [lia|].
     set (j := dict_state c mo cont kts (d_next st) id).
     assert (Hbd : forall rec, build E rec sl [] (s "_general.DictNode") KDict m j
             = do (h, m0) <- node_init sl KDict (s "_general.DictNode") [] true m j JNull;
@@ -709,6 +820,8 @@ Section Share.
     { unfold st0; cbn [d_next]. lia. }
     { lia. }
     { exact Hmem2. }
+    { split; [apply Hmok0; exact HpMOK|]. split; [eapply lk_trans; [exact HLlk|exact HpLk]|].
+      intros j0 Hj0 e He. rewrite (kts_no_files _ _ Hkts j0 Hj0) in He. destruct He. }
     match goal with |- context [build E (get_tree fuel E proto) ?sl0 [] ?tg ?kk ?mm ?jj] =>
       replace (build E (get_tree fuel E proto) sl0 [] tg kk mm jj) with (Ok (A:=node * memo) (ktn, m1)) by (symmetry; exact Hkt) end.
     cbn [bind]. clear Hkt.
@@ -720,6 +833,7 @@ Section Share.
       pose proof (max_map_in (fun kv => need (snd kv)) kv items Hkv). cbn beta in *. lia. }
     { exact Hklt. }
     { unfold sls. rewrite !map_length. reflexivity. }
+    { split; [apply Hmok0; exact HpMOK|]. split; [exact HpLk|]. intros j0 Hj0 e He. apply HpF. rewrite Hftj. apply in_flat_map. exists j0. auto. }
     rewrite Hsub. cbn [bind]. eexists. eexists. split; [reflexivity|].
     set (hd := mkh sl KDict (s "_general.DictNode") id c mo JNull).
     set (subs := ktn :: or_empty (GetTree.K "content") LEmptyDict ns).
@@ -790,11 +904,13 @@ Section Share.
     destruct (content_of _ items [] st0) as [[cont st']|] eqn:Ec; [|discriminate]. cbn [bind] in H. injection H as <- <-.
     pose proof (Oid _ Hv) as Hid. cbn [pid] in Hid.
     destruct (dict_node id mo c items st ktid st0 kts cont st' (or_introl Hv) ltac:(lia) ltac:(lia) Hb Hcls Hk Hnd Hdi Hpr HQ Hfr Ekt Ec)
-      as [Hlate [Hnext Hnode]].
-    split; [exact Hlate|]. split; [exact Hnext|].
-    set (v := PDict id mo c items). unfold dict_state.
+      as [Hlate [Hnext [Hpost Hnode]]].
+    split; [exact Hlate|]. split; [exact Hnext|]. split; [exact Hpost|].
+    intros fuel0 m0 sl0 Hn0 Hm0 Hpre. revert fuel0 m0 sl0 Hn0 Hm0.
+    set (v := PDict id mo c items). unfold dict_state in *.
     change id with (pid v).
     apply (Q_wrap v st st' c mo _ _ (s "_general.DictNode") KDict); try assumption; try reflexivity; try (cbn [pid v]; lia); try (cbn; tauto).
+    intros fuel m sl Hn Hm Hmem. apply Hnode; assumption.
   Qed.
 
   Lemma defdict_Q id f items :
@@ -807,9 +923,9 @@ Section Share.
     destruct (content_of _ items [] st0') as [[cont st1]|] eqn:Ec; [|discriminate]. cbn [bind] in H.
     destruct (get_state D f st1) as [[fac st']|] eqn:Ef; [|discriminate]. cbn [bind] in H. injection H as <- <-.
     pose proof (Oid _ Hv) as Hid. cbn [pid] in Hid.
-    assert (Hd : did = d_next st /\ d_next st0 = (d_next st + 1)%Z /\ d_late st0 = d_late st).
+    assert (Hd : did = d_next st /\ d_next st0 = (d_next st + 1)%Z /\ d_late st0 = d_late st /\ d_members st0 = d_members st).
     { unfold fresh in Hfr0. injection Hfr0 as <- <-. cbn. auto. }
-    destruct Hd as [-> [Hn0 Hl0]].
+    destruct Hd as [-> [Hn0 [Hl0 Hmem0]]].
     set (main := PDict (d_next st) (s "builtins") (s "dict") items).
     assert (Hy1 : Objs main \/ (base <= d_next st)%Z) by (right; lia).
     assert (Hy2 : (0 < d_next st)%Z) by lia.
@@ -817,9 +933,23 @@ Section Share.
     assert (Hy4 : (base <= d_next st0)%Z) by lia.
     assert (Hy5 : dict_cls (s "builtins") (s "dict")) by (left; split; reflexivity).
     destruct (dict_node (d_next st) (s "builtins") (s "dict") items st0 ktid st0' kts cont st1 Hy1 Hy2 Hy3 Hy4 Hy5 Hk Hnd Hdi Hpr HQ Hfr Ekt Ec)
-      as [Hlate1 [Hnext1 Hnode]].
-    destruct (Hf _ _ _ Ef ltac:(lia)) as [Hlate2 [Hnext2 Hfq]].
+      as [Hlate1 [Hnext1 [[Hlk1 [Hft1 Hmok1]] Hnode]]].
+    destruct (Hf _ _ _ Ef ltac:(lia)) as [Hlate2 [Hnext2 [[Hlk2 [Hft2 Hmok2]] Hfq]]].
     split; [congruence|]. split; [lia|].
+    set (jd := node_state (s "defaultdict") (s "collections") (CodecDump.K "DefaultDictNode")
+                [(CodecDump.K "content", JObj [(CodecDump.K "main", dict_state (CodecDump.K "dict") (CodecDump.K "builtins") cont kts ktid (d_next st));
+                                              (CodecDump.K "default_factory", fac)])] id).
+    assert (Hftj : file_table jd
+                   = file_table (dict_state (CodecDump.K "dict") (CodecDump.K "builtins") cont kts ktid (d_next st)) ++ file_table fac).
+    { unfold jd. rewrite ft_node_state by reflexivity. cbn [dget flat_map snd app]. change (pstr_eqb (s "file") (CodecDump.K "content")) with false. cbn iota.
+      rewrite file_table_obj. cbn [flat_map snd app]. rewrite !app_nil_r. reflexivity. }
+    assert (Hmok0 : MOK st -> MOK st0) by (intros Hm0; apply (MOK_next st st0); [exact Hmem0|lia|exact Hm0]).
+    assert (Hpost : Post st jd st').
+    { split; [rewrite <- Hmem0; eapply lk_trans; eauto|]. split; [|auto].
+      intros h x Hin. rewrite Hftj in Hin. apply in_app_or in Hin. destruct Hin as [Hin|Hin]; [exact (Hft1 h x Hin)|exact (Hft2 h x Hin)]. }
+    split; [exact Hpost|].
+    intros fuelq mq slq Hnq Hmq [HpMOK [HpLk HpF0]]. revert fuelq mq slq Hnq Hmq.
+    assert (HpF : incl (file_table jd) files) by exact HpF0.
     set (v := PDefDict id (s "collections") (s "defaultdict") f items).
     change id with (pid v).
     apply (Q_wrap v st st' _ _ _ _ (s "_general.DefaultDictNode") KDefaultDict); try assumption; try reflexivity; try (cbn [pid v]; lia); try (cbn; tauto).
@@ -843,12 +973,15 @@ Section Share.
     { cbn [need]. pose proof (Nat.le_max_r (need f) (max_map (fun kv : dkey * pval => need (snd kv)) items)). lia. }
     { eapply memo_lt_le; [|exact Hm0]. lia. }
     { apply (memo_lt_fresh _ (d_next st)); [exact Hm0|lia]. }
+    { split; [apply Hmok0; exact HpMOK|]. split; [eapply lk_trans; [exact Hlk2|exact HpLk]|].
+      intros e He. apply HpF. rewrite Hftj. apply in_or_app. left. exact He. }
     match goal with |- context [build E (get_tree fuel E proto) ?sl0 [] ?tg ?kk ?mm ?jj] =>
       replace (build E (get_tree fuel E proto) sl0 [] tg kk mm jj) with (Ok (A:=node * memo) (a, m1)) by (symmetry; exact Ha) end.
     cbn [bind]. clear Ha.
     destruct (Hfq (S fuel) m1 (SOne (GetTree.K "default_factory"))) as [b [m2 [Hbq [Hbsl [Hbnl [Hbmo [Hbgr [Hblt [Hbsp Hbal]]]]]]]]].
     { pose proof (Nat.le_max_l (need f) (max_map (fun kv : dkey * pval => need (snd kv)) items)). lia. }
     { exact Halt. }
+    { split; [auto|]. split; [exact HpLk|]. intros e He. apply HpF. rewrite Hftj. apply in_or_app. right. exact He. }
     rewrite Hbq. cbn [bind]. eexists. eexists. split; [reflexivity|].
     set (hd := mkh sl KDefaultDict (s "_general.DefaultDictNode") (pid v) (s "defaultdict") (s "collections") JNull).
     assert (Hm0R : forall R, sub (Node hd [a; b]) R -> minR m R -> minR (key id :: m) R).
@@ -886,6 +1019,7 @@ Section Share.
     Objs v -> Q x -> (size x < size v)%nat -> (need x < need v)%nat ->
     In (l, tag) frag_loaders -> kind_of_class tag = Some k ->
     (forall jx, dget (s "__id__") (flds jx) = None) ->
+    (forall jx, file_table (node_state c mo l (flds jx) (pid v)) = file_table jx) ->
     (forall st, get_state D v st = do (jx, st1) <- get_state D x st; Ok (node_state c mo l (flds jx) (pid v), st1)) ->
     (forall rec sl m jx, build E rec sl [] tag k m (node_state c mo l (flds jx) (pid v))
                          = do (h, m0) <- node_init sl k tag [] true m (node_state c mo l (flds jx) (pid v)) JNull;
@@ -894,13 +1028,17 @@ Section Share.
        cbody C files (mkh sl k tag (pid v) c mo JNull) [n] (construct_val C files R cf) = Ok v) ->
     Q v.
   Proof.
-    intros Hv Hx Hsz Hnd Hl Hk Hf Hget Hbuild Hcons st j st' H Hb. rewrite Hget in H.
+    intros Hv Hx Hsz Hnd Hl Hk Hf Hftf Hget Hbuild Hcons st j st' H Hb. rewrite Hget in H.
     destruct (get_state D x st) as [[jx st1]|] eqn:Ex; [|discriminate]. cbn [bind] in H. injection H as <- <-.
-    destruct (Hx _ _ _ Ex Hb) as [Hlate [Hnext HQx]]. split; [exact Hlate|]. split; [exact Hnext|].
+    destruct (Hx _ _ _ Ex Hb) as [Hlate [Hnext [[Hlk [Hft Hmok]] HQx]]]. split; [exact Hlate|]. split; [exact Hnext|].
+    split.
+    { split; [exact Hlk|]. split; [|exact Hmok]. intros h x0 Hin. rewrite Hftf in Hin. exact (Hft h x0 Hin). }
+    intros fuelq mq slq Hnq Hmq [HpMOK [HpLk HpF]]. revert fuelq mq slq Hnq Hmq.
     pose proof (Oid _ Hv) as Hid.
     apply (Q_wrap v st st1 c mo l (flds jx) tag k); try assumption; try lia; [apply Hf|].
     intros fuel m sl Hn Hm Hmem. rewrite Hbuild, init_eq by (try apply Hf; lia). cbn [bind].
-    destruct (HQx fuel (key (pid v) :: m) (SOne slot)) as [n [m1 [Hg [Hsl [Hnl [Hmo [Hgr [Hlt [Hsp Hal]]]]]]]]]; [lia|apply memo_lt_cons; [lia|exact Hm]|].
+    destruct (HQx fuel (key (pid v) :: m) (SOne slot)) as [n [m1 [Hg [Hsl [Hnl [Hmo [Hgr [Hlt [Hsp Hal]]]]]]]]]; [lia|apply memo_lt_cons; [lia|exact Hm]| |].
+    { split; [exact HpMOK|]. split; [exact HpLk|]. rewrite Hftf in HpF. exact HpF. }
     rewrite Hg. cbn [bind]. eexists. eexists. split; [reflexivity|].
     set (hd := mkh sl k tag (pid v) c mo JNull).
     assert (Hspn : SpecN (Node hd [n]) v m).
@@ -921,6 +1059,451 @@ Section Share.
       intros y [<-|[]]. exact Hal.
   Qed.
 
+  (* ---- leaves that own a zip member named after their id: arrays, numpy scalars, sparse matrices ---- *)
+  Lemma member_present st f b : MOK st -> has_member f st = true ->
+    (forall w, Objs w -> ofile w = Some (f, b) \/ (forall b', ofile w <> Some (f, b'))) ->
+    (forall i, (base <= i)%Z -> f <> npy_name i) ->
+    (exists w, Objs w /\ ofile w = Some (f, b)) -> dget f (d_members st) = Some b.
+  Proof.
+    intros Hmok Hhas Hdet Htmp _. unfold has_member in Hhas. destruct (dget_mem _ _ Hhas) as [b0 Hd]. rewrite Hd. f_equal.
+    destruct (Hmok f b0 Hd) as [[w [Hw Ho]]|[i [Hi Hf]]].
+    - destruct (Hdet w Hw) as [H|H]; [congruence|]. exfalso. exact (H _ Ho).
+    - exfalso. apply (Htmp i); [lia|exact Hf].
+  Qed.
+
+  Lemma in_files_lookup i f : In (key i, JStr f) files -> hk_get (key i) files = Some (JStr f).
+  Proof. intros Hin. destruct (hk_get_in _ _ _ Hin) as [y [Hy Hiny]]. rewrite Hy. f_equal. exact (HFone _ _ _ Hiny Hin). Qed.
+
+  Lemma mok_write st f b : MOK st -> ((exists w, Objs w /\ ofile w = Some (f, b)) \/ (exists i, (base <= i < d_next st)%Z /\ f = npy_name i)) ->
+    MOK (if has_member f st then st else write_member f b st).
+  Proof.
+    intros Hmok Hnew. destruct (has_member f st) eqn:Hh; [exact Hmok|]. intros f' b' Hd. unfold write_member in Hd. cbn [d_members d_next] in *.
+    destruct (dget f' (d_members st)) as [b0|] eqn:E0.
+    - rewrite (dget_app_l _ _ _ _ E0) in Hd. injection Hd as <-. exact (Hmok _ _ E0).
+    - rewrite (dget_app_none _ _ _ E0) in Hd. cbn [dget] in Hd. destruct (pstr_eqb f' f) eqn:Eq; [|discriminate].
+      apply pstr_eqb_eq in Eq. subst f'. injection Hd as <-. exact Hnew.
+  Qed.
+  Lemma lk_write st f b : lk_incl (d_members st) (d_members (if has_member f st then st else write_member f b st)).
+  Proof. destruct (has_member f st); [apply lk_refl|]. unfold write_member. cbn [d_members]. apply lk_app. Qed.
+  Lemma dget_write st f b : has_member f st = false -> dget f (d_members (write_member f b st)) = Some b.
+  Proof. intros H. unfold write_member. cbn [d_members]. apply dget_app_new. apply dget_notin. exact H. Qed.
+
+  Definition arr_cls_ok (gen : bool) (mo c : pstr) : Prop :=
+    (gen = false /\ mo = s "numpy" /\ c = s "ndarray")
+    \/ (pstr_eqb (qual mo c) (s "numpy.ndarray") = false /\ resolvable F mo c = true /\ gen = mem (qual mo c) (f_generic F)).
+
+  Lemma arr_Q id gen mo c tok : Objs (PArr id gen mo c tok) -> arr_cls_ok gen mo c -> Q (PArr id gen mo c tok).
+  Proof.
+    intros Hv Hcls st j st1 H Hb. cbn [get_state] in H. injection H as <- <-.
+    set (v := PArr id gen mo c tok). set (f := npy_name id). set (b := (MNpy, tok)).
+    set (st' := if has_member f st then st else write_member f b st).
+    pose proof (Oid _ Hv) as Hid. cbn [pid] in Hid.
+    assert (Hnext : d_next st' = d_next st) by (unfold st'; destruct (has_member f st); reflexivity).
+    assert (Hlate : d_late st' = d_late st) by (unfold st'; destruct (has_member f st); reflexivity).
+    split; [exact Hlate|]. split; [lia|].
+    set (jv := node_state c mo (CodecDump.K "NdArrayNode") [(CodecDump.K "type", JStr (CodecDump.K "numpy")); (CodecDump.K "file", JStr f)] id).
+    assert (Hft : file_table jv = [(key id, JStr f)]) by (unfold jv; rewrite ft_node_state by reflexivity; reflexivity).
+    assert (Hown : exists w, Objs w /\ ofile w = Some (f, b)) by (exists v; split; [exact Hv|reflexivity]).
+    assert (Hpost : Post st jv st').
+    { split; [apply lk_write|]. split.
+      - intros h x Hin. rewrite Hft in Hin. destruct Hin as [Hin|[]]. injection Hin as <- <-. exists id. split; [reflexivity|]. left.
+        exists v, f, b. auto.
+      - intros Hmok. apply mok_write; [exact Hmok|left; exact Hown]. }
+    split; [exact Hpost|].
+    intros fuelq mq slq Hnq Hmq [HpMOK [HpLk HpF0]]. revert fuelq mq slq Hnq Hmq.
+    assert (HpF : incl (file_table jv) files) by exact HpF0.
+    assert (Hk1 : dget f (d_members st') = Some b).
+    { unfold st'. destruct (has_member f st) eqn:Hh; [|apply dget_write; exact Hh].
+      apply (member_present st f b HpMOK Hh); [| |exact Hown].
+      - intros w Hw. destruct w; try (right; intros b' Hb'; discriminate Hb'); cbn [ofile].
+        + destruct (Z.eq_dec id0 id) as [->|Hne].
+          * left. assert (Heq : PArr id gen0 m c0 tok0 = v) by (apply Ofun; auto). injection Heq as -> -> -> ->. reflexivity.
+          * right. intros b' Hb'. injection Hb' as Hb' _. apply npy_inj in Hb'. contradiction.
+        + right. intros b' Hb'. injection Hb' as Hb' _. symmetry in Hb'. exact (npy_npz _ _ Hb').
+      - intros i Hi Hf. apply npy_inj in Hf. lia. }
+    assert (Hk2 : dget f (c_members C) = Some b) by (apply HpLk; exact Hk1).
+    change (forall fuel m sl, (need v <= fuel)%nat -> memo_lt m (d_next st) ->
+              exists n m', get_tree fuel E proto [] sl m (node_state c mo (CodecDump.K "NdArrayNode")
+                  [(CodecDump.K "type", JStr (CodecDump.K "numpy")); (CodecDump.K "file", JStr f)] (pid v)) = Ok (n, m') /\ Res v sl m n m' (d_next st')).
+    apply (Q_wrap v st st' c mo _ _ (s "_numpy.NdArrayNode") KNdArray); try assumption; try reflexivity; try (cbn [pid v]; lia); try (cbn; tauto).
+    intros fuel m sl Hn Hm Hmem.
+    assert (Hbd : build E (get_tree fuel E proto) sl [] (s "_numpy.NdArrayNode") KNdArray m jv
+            = do (h, m0) <- node_init sl KNdArray (s "_numpy.NdArrayNode") [] true m jv JNull;
+              do _ <- read_member E (JStr f); Ok (Node (set_aux h (JStr (GetTree.K "numpy"))) [Leaf (SOne (GetTree.K "content")) LBytes], m0)).
+    { unfold build. destruct (node_init _ _ _ _ _ _ _ _) as [[h m0]|]; reflexivity. }
+    match goal with |- context [build E ?r ?sl0 [] ?tg ?kk ?mm ?jj] =>
+      replace (build E r sl0 [] tg kk mm jj) with
+        (do (h, m0) <- node_init sl KNdArray (s "_numpy.NdArrayNode") [] true m jv JNull;
+         do _ <- read_member E (JStr f); Ok (Node (set_aux h (JStr (GetTree.K "numpy"))) [Leaf (SOne (GetTree.K "content")) LBytes], m0))
+        by (symmetry; exact Hbd) end.
+    unfold jv. rewrite init_eq by (try reflexivity; lia). cbn [bind].
+    assert (Hrm : read_member E (JStr f) = Ok tt).
+    { unfold read_member. rewrite HEC. replace (mem f (map fst (c_members C))) with true; [reflexivity|].
+      symmetry. apply mem_In. eapply dget_in_fst; eauto. }
+    rewrite Hrm. cbn [bind]. eexists. eexists. split; [reflexivity|].
+    set (hd := set_aux (mkh sl KNdArray (s "_numpy.NdArrayNode") id c mo JNull) (JStr (GetTree.K "numpy"))).
+    assert (Hspn : SpecN (Node hd [Leaf (SOne (GetTree.K "content")) LBytes]) v m).
+    { intros R _ _ _ cf Hcf. destruct cf as [|cf]; [pose proof (need_pos v); lia|]. cbn [construct_val].
+      unfold cbody, hd, set_aux, mkh. cbn [h_kind h_aux h_id h_module h_class h_slot h_tag h_extra].
+      change (jstr_eqb (JStr (GetTree.K "numpy")) (s "numpy")) with true. cbn iota.
+      unfold read_blob. cbn [h_id]. rewrite (in_files_lookup id f) by (apply HpF; rewrite Hft; left; reflexivity).
+      rewrite Hk2. cbn [bind h_module h_class jstr snd b].
+      assert (Hnid : nid {| h_slot := sl; h_kind := KNdArray; h_tag := s "_numpy.NdArrayNode"; h_id := Some (key id); h_extra := [];
+                            h_class := JStr c; h_module := JStr mo; h_aux := JStr (GetTree.K "numpy") |} = id).
+      { unfold nid, key. cbn [h_id]. apply key_div. }
+      destruct Hcls as [[-> [-> ->]]|[Hq [Hr Hg]]].
+      - change (pstr_eqb (qual (s "numpy") (s "ndarray")) (s "numpy.ndarray")) with true. cbn iota. rewrite Hnid. reflexivity.
+      - rewrite Hq. unfold resolvable in Hr. apply andb_prop in Hr. destruct Hr as [Hmiss Hne]. apply negb_true_iff in Hmiss.
+        erewrite gt_ok; [|reflexivity|reflexivity| | |destruct HC as [_ ->]; exact Hmiss].
+        + cbn [bind]. rewrite Hnid, HCg, <- Hg. reflexivity.
+        + destruct mo; [discriminate Hne|discriminate].
+        + destruct mo; [discriminate Hne|]. destruct c; [discriminate Hne|discriminate]. }
+    unfold Res. cbn [node_slot notleaf]. repeat split.
+    - apply mono_cons.
+    - intros h Hh. cbn [memo_mem] in Hh. apply orb_prop in Hh. destruct Hh as [Hh|Hh]; [|left; exact Hh].
+      right. apply hkey_eqb_eq in Hh. subst h. cbn. left. reflexivity.
+    - apply memo_lt_cons; [lia|]. rewrite Hnext. exact Hm.
+    - apply Spec_of_SpecN. exact Hspn.
+    - apply (allok_node hd _ v m); [reflexivity|left; exact Hv|exact Hspn|apply mono_cons|].
+      intros x [<-|[]]. apply allok_leaf.
+  Qed.
+
+  Lemma sparse_Q id mo c tok : Objs (PSparse id mo c tok) -> Q (PSparse id mo c tok).
+  Proof.
+    intros Hv st j st1 H Hb. cbn [get_state] in H. injection H as <- <-.
+    set (v := PSparse id mo c tok). set (f := npz_name id). set (b := (MNpz, tok)).
+    set (st' := if has_member f st then st else write_member f b st).
+    pose proof (Oid _ Hv) as Hid. cbn [pid] in Hid.
+    assert (Hnext : d_next st' = d_next st) by (unfold st'; destruct (has_member f st); reflexivity).
+    assert (Hlate : d_late st' = d_late st) by (unfold st'; destruct (has_member f st); reflexivity).
+    split; [exact Hlate|]. split; [lia|].
+    set (jv := node_state c mo (CodecDump.K "SparseMatrixNode") [(CodecDump.K "type", JStr (CodecDump.K "scipy")); (CodecDump.K "file", JStr f)] id).
+    assert (Hft : file_table jv = [(key id, JStr f)]) by (unfold jv; rewrite ft_node_state by reflexivity; reflexivity).
+    assert (Hown : exists w, Objs w /\ ofile w = Some (f, b)) by (exists v; split; [exact Hv|reflexivity]).
+    assert (Hpost : Post st jv st').
+    { split; [apply lk_write|]. split.
+      - intros h x Hin. rewrite Hft in Hin. destruct Hin as [Hin|[]]. injection Hin as <- <-. exists id. split; [reflexivity|]. left.
+        exists v, f, b. auto.
+      - intros Hmok. apply mok_write; [exact Hmok|left; exact Hown]. }
+    split; [exact Hpost|].
+    intros fuelq mq slq Hnq Hmq [HpMOK [HpLk HpF0]]. revert fuelq mq slq Hnq Hmq.
+    assert (HpF : incl (file_table jv) files) by exact HpF0.
+    assert (Hk1 : dget f (d_members st') = Some b).
+    { unfold st'. destruct (has_member f st) eqn:Hh; [|apply dget_write; exact Hh].
+      apply (member_present st f b HpMOK Hh); [| |exact Hown].
+      - intros w Hw. destruct w; try (right; intros b' Hb'; discriminate Hb'); cbn [ofile].
+        + right. intros b' Hb'. injection Hb' as Hb' _. exact (npy_npz _ _ Hb').
+        + destruct (Z.eq_dec id0 id) as [->|Hne].
+          * left. assert (Heq : PSparse id m c0 tok0 = v) by (apply Ofun; auto). injection Heq as -> -> ->. reflexivity.
+          * right. intros b' Hb'. injection Hb' as Hb' _. apply npz_inj in Hb'. contradiction.
+      - intros i Hi Hf. symmetry in Hf. exact (npy_npz _ _ Hf). }
+    assert (Hk2 : dget f (c_members C) = Some b) by (apply HpLk; exact Hk1).
+    change (forall fuel m sl, (need v <= fuel)%nat -> memo_lt m (d_next st) ->
+              exists n m', get_tree fuel E proto [] sl m (node_state c mo (CodecDump.K "SparseMatrixNode")
+                  [(CodecDump.K "type", JStr (CodecDump.K "scipy")); (CodecDump.K "file", JStr f)] (pid v)) = Ok (n, m') /\ Res v sl m n m' (d_next st')).
+    apply (Q_wrap v st st' c mo _ _ (s "_scipy.SparseMatrixNode") KSparse); try assumption; try reflexivity; try (cbn [pid v]; lia); try (cbn; tauto).
+    intros fuel m sl Hn Hm Hmem.
+    assert (Hbd : build E (get_tree fuel E proto) sl [] (s "_scipy.SparseMatrixNode") KSparse m jv
+            = do (h, m0) <- node_init sl KSparse (s "_scipy.SparseMatrixNode") [] true m jv JNull;
+              do _ <- read_member E (JStr f); Ok (Node (set_aux h (JStr (GetTree.K "scipy"))) [Leaf (SOne (GetTree.K "content")) LBytes], m0)).
+    { unfold build. destruct (node_init _ _ _ _ _ _ _ _) as [[h m0]|]; reflexivity. }
+    match goal with |- context [build E ?r ?sl0 [] ?tg ?kk ?mm ?jj] =>
+      replace (build E r sl0 [] tg kk mm jj) with
+        (do (h, m0) <- node_init sl KSparse (s "_scipy.SparseMatrixNode") [] true m jv JNull;
+         do _ <- read_member E (JStr f); Ok (Node (set_aux h (JStr (GetTree.K "scipy"))) [Leaf (SOne (GetTree.K "content")) LBytes], m0))
+        by (symmetry; exact Hbd) end.
+    unfold jv. rewrite init_eq by (try reflexivity; lia). cbn [bind].
+    assert (Hrm : read_member E (JStr f) = Ok tt).
+    { unfold read_member. rewrite HEC. replace (mem f (map fst (c_members C))) with true; [reflexivity|].
+      symmetry. apply mem_In. eapply dget_in_fst; eauto. }
+    rewrite Hrm. cbn [bind]. eexists. eexists. split; [reflexivity|].
+    set (hd := set_aux (mkh sl KSparse (s "_scipy.SparseMatrixNode") id c mo JNull) (JStr (GetTree.K "scipy"))).
+    assert (Hspn : SpecN (Node hd [Leaf (SOne (GetTree.K "content")) LBytes]) v m).
+    { intros R _ _ _ cf Hcf. destruct cf as [|cf]; [pose proof (need_pos v); lia|]. cbn [construct_val].
+      unfold cbody, hd, set_aux, mkh. cbn [h_kind h_aux h_id h_module h_class h_slot h_tag h_extra].
+      unfold read_blob. cbn [h_id]. rewrite (in_files_lookup id f) by (apply HpF; rewrite Hft; left; reflexivity).
+      rewrite Hk2. cbn [bind h_module h_class jstr snd b]. unfold nid, key. cbn [h_id]. rewrite key_div. reflexivity. }
+    unfold Res. cbn [node_slot notleaf]. repeat split.
+    - apply mono_cons.
+    - intros h Hh. cbn [memo_mem] in Hh. apply orb_prop in Hh. destruct Hh as [Hh|Hh]; [|left; exact Hh].
+      right. apply hkey_eqb_eq in Hh. subst h. cbn. left. reflexivity.
+    - apply memo_lt_cons; [lia|]. rewrite Hnext. exact Hm.
+    - apply Spec_of_SpecN. exact Hspn.
+    - apply (allok_node hd _ v m); [reflexivity|left; exact Hv|exact Hspn|apply mono_cons|].
+      intros x [<-|[]]. apply allok_leaf.
+  Qed.
+
+  Lemma strip_prefix_app p t0 : strip_prefix p (p ++ t0) = Some t0.
+  Proof. induction p as [|x p IH]; [reflexivity|]. cbn [app strip_prefix]. rewrite N.eqb_refl. exact IH. Qed.
+
+  (* a dtype travels as an empty carrier array the dumper creates *)
+  Lemma dtype_Q id tok : Objs (PDType id tok) -> Q (PDType id tok).
+  Proof.
+    intros Hv st j st1 H Hb. cbn [get_state] in H. destruct (fresh st) as [tid st0] eqn:Hfr. injection H as <- <-.
+    assert (Hd : tid = d_next st /\ d_next st0 = (d_next st + 1)%Z /\ d_late st0 = d_late st /\ d_members st0 = d_members st).
+    { unfold fresh in Hfr. injection Hfr as <- <-. cbn. auto. }
+    destruct Hd as [-> [Hn0 [Hl0 Hmem0]]]. set (tid := d_next st).
+    set (v := PDType id tok). set (f := npy_name tid). set (b := (MNpy, s "dt:" ++ tok)).
+    set (st' := if has_member f st0 then st0 else write_member f b st0).
+    pose proof (Oid _ Hv) as Hid. cbn [pid] in Hid.
+    assert (Hnext : d_next st' = d_next st0) by (unfold st'; destruct (has_member f st0); reflexivity).
+    assert (Hlate : d_late st' = d_late st0) by (unfold st'; destruct (has_member f st0); reflexivity).
+    split; [transitivity (d_late st0); [exact Hlate|exact Hl0]|]. split; [change (d_next st <= d_next st')%Z; lia|].
+    set (ji := node_state (CodecDump.K "ndarray") (CodecDump.K "numpy") (CodecDump.K "NdArrayNode")
+                 [(CodecDump.K "type", JStr (CodecDump.K "numpy")); (CodecDump.K "file", JStr f)] tid).
+    set (jv := node_state (CodecDump.K "dtype") (CodecDump.K "numpy") (CodecDump.K "DTypeNode") [(CodecDump.K "content", ji)] id).
+    assert (Hfti : file_table ji = [(key tid, JStr f)]) by (unfold ji; rewrite ft_node_state by reflexivity; reflexivity).
+    assert (Hft : file_table jv = [(key tid, JStr f)]).
+    { unfold jv. rewrite ft_node_state by reflexivity. cbn [dget flat_map snd app]. change (pstr_eqb (s "file") (CodecDump.K "content")) with false.
+      cbn iota. rewrite Hfti. reflexivity. }
+    assert (Hmok0 : MOK st -> MOK st0) by (intros Hm0; apply (MOK_next st st0); [exact Hmem0|lia|exact Hm0]).
+    assert (Hpost : Post st jv st').
+    { split; [rewrite <- Hmem0; apply lk_write|]. split.
+      - intros h x Hin. rewrite Hft in Hin. destruct Hin as [Hin|[]]. injection Hin as <- <-. exists tid. split; [reflexivity|]. right.
+        split; [unfold tid; lia|reflexivity].
+      - intros Hmok. apply (MOK_next st' st'); [reflexivity|lia|]. apply mok_write; [apply Hmok0; exact Hmok|]. right. exists tid. split; [unfold tid; lia|reflexivity]. }
+    split; [exact Hpost|].
+    intros fuelq mq slq Hnq Hmq [HpMOK [HpLk HpF0]]. revert fuelq mq slq Hnq Hmq.
+    assert (HpF : incl (file_table jv) files) by exact HpF0.
+    assert (Hhas : has_member f st0 = false).
+    { destruct (has_member f st0) eqn:Hh; [|reflexivity]. exfalso. unfold has_member in Hh. rewrite Hmem0 in Hh.
+      destruct (dget_mem _ _ Hh) as [b0 Hd]. destruct (HpMOK f b0 Hd) as [[w [Hw Ho]]|[i [Hi Hf]]].
+      - pose proof (Oid _ Hw) as Hwi. destruct w; try discriminate Ho; cbn [ofile pid] in *; injection Ho as Ho _.
+        + apply npy_inj in Ho. unfold tid in *. lia.
+        + symmetry in Ho. exact (npy_npz _ _ Ho).
+      - apply npy_inj in Hf. unfold tid in *. lia. }
+    assert (Hk1 : dget f (d_members st') = Some b) by (unfold st'; rewrite Hhas; apply dget_write; exact Hhas).
+    assert (Hk2 : dget f (c_members C) = Some b) by (apply HpLk; exact Hk1).
+    change (forall fuel m sl, (need v <= fuel)%nat -> memo_lt m (d_next st) ->
+              exists n m', get_tree fuel E proto [] sl m (node_state (CodecDump.K "dtype") (CodecDump.K "numpy") (CodecDump.K "DTypeNode")
+                  [(CodecDump.K "content", ji)] (pid v)) = Ok (n, m') /\ Res v sl m n m' (d_next st')).
+    apply (Q_wrap v st st' _ _ _ _ (s "_numpy.DTypeNode") KDType); try assumption; try reflexivity; try (cbn [pid v]; lia); try (cbn; tauto).
+    intros fuel m sl Hn Hm Hmem. cbn [need v] in Hn. destruct fuel as [|fuel]; [lia|]. cbn [pid v].
+    assert (Hbd : forall rec, build E rec sl [] (s "_numpy.DTypeNode") KDType m jv
+            = do (h, m0) <- node_init sl KDType (s "_numpy.DTypeNode") [] true m jv JNull;
+              do (n, m1) <- rec [] (SOne (GetTree.K "content")) m0 ji; Ok (Node h [n], m1)).
+    { intros rec. reflexivity. }
+    fold jv. rewrite Hbd. unfold jv. rewrite init_eq by (try reflexivity; lia). cbn [bind]. clear Hbd.
+    assert (Hm0 : memo_lt (key id :: m) (d_next st)) by (apply memo_lt_cons; [lia|exact Hm]).
+    unfold ji. rewrite (gt_step fuel (SOne (GetTree.K "content")) (key id :: m) _ _ _ _ tid (s "_numpy.NdArrayNode") KNdArray);
+      [|reflexivity|cbn; tauto|reflexivity].
+    rewrite (memo_lt_fresh _ (d_next st) tid Hm0 ltac:(unfold tid; lia)).
+    assert (Hbi : build E (get_tree fuel E proto) (SOne (GetTree.K "content")) [] (s "_numpy.NdArrayNode") KNdArray (key id :: m) ji
+            = do (h, m0) <- node_init (SOne (GetTree.K "content")) KNdArray (s "_numpy.NdArrayNode") [] true (key id :: m) ji JNull;
+              do _ <- read_member E (JStr f); Ok (Node (set_aux h (JStr (GetTree.K "numpy"))) [Leaf (SOne (GetTree.K "content")) LBytes], m0)).
+    { unfold build. destruct (node_init _ _ _ _ _ _ _ _) as [[h m0]|]; reflexivity. }
+    fold ji. rewrite Hbi. unfold ji. rewrite init_eq by (try reflexivity; unfold tid; lia). cbn [bind]. clear Hbi.
+    assert (Hrm : read_member E (JStr f) = Ok tt).
+    { unfold read_member. rewrite HEC. replace (mem f (map fst (c_members C))) with true; [reflexivity|].
+      symmetry. apply mem_In. eapply dget_in_fst; eauto. }
+    rewrite Hrm. cbn [bind]. eexists. eexists. split; [reflexivity|].
+    set (hin := set_aux (mkh (SOne (GetTree.K "content")) KNdArray (s "_numpy.NdArrayNode") tid (CodecDump.K "ndarray") (CodecDump.K "numpy") JNull) (JStr (GetTree.K "numpy"))).
+    set (inner := Node hin [Leaf (SOne (GetTree.K "content")) LBytes]).
+    set (hd := mkh sl KDType (s "_numpy.DTypeNode") id (CodecDump.K "dtype") (CodecDump.K "numpy") JNull).
+    assert (Hspn : SpecN (Node hd [inner]) v m).
+    { intros R _ _ _ cf Hcf. cbn [need v] in Hcf. destruct cf as [|[|cf]]; try lia.
+      assert (Hinn : construct_val C files R (S cf) inner = Ok (PArr tid false (CodecDump.K "numpy") (CodecDump.K "ndarray") (s "dt:" ++ tok))).
+      { unfold inner. cbn [construct_val]. unfold cbody, hin, set_aux, mkh. cbn [h_kind h_aux h_id h_module h_class h_slot h_tag h_extra].
+        change (jstr_eqb (JStr (GetTree.K "numpy")) (s "numpy")) with true. cbn iota.
+        unfold read_blob. cbn [h_id]. rewrite (in_files_lookup tid f) by (apply HpF; rewrite Hft; left; reflexivity).
+        rewrite Hk2. cbn [bind jstr snd b].
+        change (pstr_eqb (qual (CodecDump.K "numpy") (CodecDump.K "ndarray")) (s "numpy.ndarray")) with true. cbn iota.
+        unfold nid, key. cbn [h_id]. rewrite key_div. reflexivity. }
+      generalize dependent inner. intros inn Hinn.
+      change (construct_val C files R (S (S cf)) (Node hd [inn])) with (cbody C files hd [inn] (construct_val C files R (S cf))).
+      unfold cbody, hd, mkh. cbn [h_kind]. rewrite Hinn. cbn [bind].
+      rewrite strip_prefix_app. unfold nid, key. cbn [h_id]. rewrite key_div. reflexivity. }
+    unfold Res. cbn [node_slot notleaf]. repeat split.
+    - eapply mono_trans; apply mono_cons.
+    - intros h Hh. cbn [memo_mem] in Hh. apply orb_prop in Hh. destruct Hh as [Hh|Hh].
+      + right. apply hkey_eqb_eq in Hh. subst h. cbn. right. left. reflexivity.
+      + apply orb_prop in Hh. destruct Hh as [Hh|Hh]; [|left; exact Hh]. right. apply hkey_eqb_eq in Hh. subst h. cbn. left. reflexivity.
+    - apply memo_lt_cons; [unfold tid; lia|]. apply memo_lt_cons; [lia|]. eapply memo_lt_le; [|exact Hm]. lia.
+    - apply Spec_of_SpecN. exact Hspn.
+    - intros t0 hd0 subs0 hk Hs Ht Hi. apply sub_node_inv in Hs. destruct Hs as [->|[x [[<-|[]] Hs]]].
+      + injection Ht as <- <-. cbn in Hi. injection Hi as <-. right. exists v, m. split; [exact Hv|]. split; [reflexivity|].
+        split; [eapply mono_trans; apply mono_cons|exact Hspn].
+      + unfold inner in Hs. apply sub_node_inv in Hs. destruct Hs as [->|[y [[<-|[]] Hs]]].
+        * injection Ht as <- <-. cbn in Hi. injection Hi as <-. left. exists tid. split; [reflexivity|unfold tid; lia].
+        * apply sub_leaf_inv in Hs. congruence.
+  Qed.
+
+  (* ---- values whose node has a fixed list of child nodes (masked array, Generator, partial, ...) ---- *)
+  Lemma multi_Q v xs sls c mo l (flds : list json -> list (pstr * json)) tag k :
+    Objs v -> Forall Q xs -> length sls = length xs ->
+    (forall x, In x xs -> (size x < size v)%nat /\ (need x < need v)%nat) ->
+    In (l, tag) frag_loaders -> kind_of_class tag = Some k ->
+    (forall js, dget (s "__id__") (flds js) = None) ->
+    (forall js, length js = length xs -> file_table (node_state c mo l (flds js) (pid v)) = flat_map file_table js) ->
+    (forall st, get_state D v st = do (js, st1) <- states_of (fun x s0 => get_state D x s0) xs st; Ok (node_state c mo l (flds js) (pid v), st1)) ->
+    (forall rec sl m js, length js = length xs ->
+       build E rec sl [] tag k m (node_state c mo l (flds js) (pid v))
+       = do (h, m0) <- node_init sl k tag [] true m (node_state c mo l (flds js) (pid v)) JNull;
+         do (ns, m1) <- sub_gen (rec []) (combine sls js) m0; Ok (Node h ns, m1)) ->
+    (forall R cf sl ns, Forall2 (fun n x => construct_val C files R cf n = Ok x) ns xs ->
+       cbody C files (mkh sl k tag (pid v) c mo JNull) ns (construct_val C files R cf) = Ok v) ->
+    Q v.
+  Proof.
+    intros Hv Hxs Hlen Hsz Hl Hk Hf Hftf Hget Hbuild Hcons st j st' H Hb. rewrite Hget in H.
+    destruct (states_of _ xs st) as [[js st1]|] eqn:Ex; [|discriminate]. cbn [bind] in H. injection H as <- <-.
+    destruct (gen_share xs Hxs _ _ _ Ex Hb) as [Hlate [Hnext [Hjl [[Hlk [Hft Hmok]] HG0]]]]. split; [exact Hlate|]. split; [exact Hnext|].
+    split.
+    { split; [exact Hlk|]. split; [|exact Hmok]. intros h x0 Hin. rewrite (Hftf js Hjl) in Hin. apply in_flat_map in Hin.
+      destruct Hin as [j0 [Hj0 Hin]]. exact (Hft j0 Hj0 h x0 Hin). }
+    intros fuelq mq slq Hnq Hmq [HpMOK [HpLk HpF]]. revert fuelq mq slq Hnq Hmq.
+    pose proof (Oid _ Hv) as Hid.
+    apply (Q_wrap v st st1 c mo l (flds js) tag k); try assumption; try lia; [apply Hf|].
+    intros fuel m sl Hn Hm Hmem. rewrite (Hbuild _ _ _ _ Hjl), init_eq by (try apply Hf; lia). cbn [bind].
+    destruct (HG0 fuel (key (pid v) :: m) sls) as [ns [m1 [Hg [Hsl [Hmo [Hgr [Hlt [Hls Hal]]]]]]]].
+    { intros x Hx. destruct (Hsz x Hx). lia. }
+    { apply memo_lt_cons; [lia|exact Hm]. }
+    { exact Hlen. }
+    { split; [exact HpMOK|]. split; [exact HpLk|]. intros j0 Hj0 e He. apply HpF. rewrite (Hftf js Hjl). apply in_flat_map. exists j0. auto. }
+    rewrite Hg. cbn [bind]. eexists. eexists. split; [reflexivity|].
+    set (hd := mkh sl k tag (pid v) c mo JNull).
+    assert (Hspn : SpecN (Node hd ns) v m).
+    { intros R Hs HmR Hg0 cf Hcf. destruct cf as [|cf]; [pose proof (need_pos v); lia|]. cbn [construct_val]. apply Hcons.
+      assert (Hden : Forall2 (Den R) ns xs).
+      { apply (Hls R (size v)).
+        - intros x Hx. eapply sub_child; [exact Hs|exact Hx].
+        - intros h Hh. cbn [memo_mem] in Hh. apply orb_prop in Hh. destruct Hh as [Hh|Hh]; [|auto].
+          apply hkey_eqb_eq in Hh. subst h. eapply ids_sub; [exact Hs|]. cbn [ids]. unfold own_ids, hd. cbn [mkh h_id]. left. reflexivity.
+        - exact Hg0.
+        - intros w Hw. destruct (Hsz w Hw). lia. }
+      clear -Hden Hsz Hcf. induction Hden as [|n x ns0 xs0 Hn Hr IH]; constructor.
+      - apply Hn. destruct (Hsz x (or_introl eq_refl)). lia.
+      - apply IH. intros y Hy. apply Hsz. right. exact Hy. }
+    unfold Res. cbn [node_slot notleaf]. repeat split.
+    - eapply mono_trans; [apply mono_cons|exact Hmo].
+    - intros h Hh. cbn [flat_map ids]. rewrite !app_nil_r. destruct (Hgr h Hh) as [H|H].
+      + cbn [memo_mem] in H. apply orb_prop in H. destruct H as [H|H]; [|left; exact H].
+        apply hkey_eqb_eq in H. subst h. right. apply in_or_app. left. left. reflexivity.
+      + right. apply in_or_app. right. exact H.
+    - exact Hlt.
+    - apply Spec_of_SpecN. exact Hspn.
+    - apply (allok_node hd ns v m); [reflexivity|left; exact Hv|exact Hspn|eapply mono_trans; [apply mono_cons|exact Hmo]|exact Hal].
+  Qed.
+
+  Ltac two_states := intros st0; cbn [get_state states_of];
+    repeat match goal with |- context [get_state D ?x ?s0] => destruct (get_state D x s0) as [[? ?]|]; cbn [bind]; [|reflexivity] end; reflexivity.
+
+  Lemma masked_Q id d k : Objs (PMasked id (s "numpy.ma") (s "MaskedArray") d k) -> Q d -> Q k ->
+    Q (PMasked id (s "numpy.ma") (s "MaskedArray") d k).
+  Proof.
+    intros Hv Hd Hk0.
+    apply (multi_Q (PMasked id (s "numpy.ma") (s "MaskedArray") d k) [d; k] [SOne (GetTree.K "data"); SOne (GetTree.K "mask")]
+             (s "MaskedArray") (s "numpy.ma") (CodecDump.K "MaskedArrayNode")
+             (fun js => match js with [jd; jm] => [(CodecDump.K "content", JObj [(CodecDump.K "data", jd); (CodecDump.K "mask", jm)])] | _ => [] end)
+             (s "_numpy.MaskedArrayNode") KMaskedArray); try assumption; try reflexivity.
+    - constructor; [exact Hd|constructor; [exact Hk0|constructor]].
+    - intros x [<-|[<-|[]]]; cbn [size need]; lia.
+    - cbn; tauto.
+    - intros [|jd [|jm [|? ?]]]; reflexivity.
+    - intros [|jd [|jm [|? ?]]] Hl; try discriminate Hl. rewrite ft_node_state by reflexivity. cbn [dget flat_map snd app].
+      change (pstr_eqb (s "file") (CodecDump.K "content")) with false. cbn iota. rewrite file_table_obj. cbn [flat_map snd app]. rewrite !app_nil_r. reflexivity.
+    - two_states.
+    - intros rec sl m [|jd [|jm [|? ?]]] Hl; try discriminate Hl. unfold build, content_child.
+      destruct (node_init _ _ _ _ _ _ _ _) as [[h m0]|]; [|reflexivity]. cbn [bind combine sub_gen].
+      change (jindex (node_state (s "MaskedArray") (s "numpy.ma") (CodecDump.K "MaskedArrayNode")
+                [(CodecDump.K "content", JObj [(CodecDump.K "data", jd); (CodecDump.K "mask", jm)])] (pid (PMasked id (s "numpy.ma") (s "MaskedArray") d k))) (GetTree.K "content"))
+        with (Ok (A:=json) (JObj [(CodecDump.K "data", jd); (CodecDump.K "mask", jm)])). cbn [bind].
+      change (jindex (JObj [(CodecDump.K "data", jd); (CodecDump.K "mask", jm)]) (GetTree.K "data")) with (Ok (A:=json) jd).
+      change (jindex (JObj [(CodecDump.K "data", jd); (CodecDump.K "mask", jm)]) (GetTree.K "mask")) with (Ok (A:=json) jm). cbn [bind].
+      destruct (rec [] (SOne (GetTree.K "data")) m0 jd) as [[a m1]|]; [|reflexivity]. cbn [bind].
+      destruct (rec [] (SOne (GetTree.K "mask")) m1 jm) as [[b m2]|]; reflexivity.
+    - intros R cf sl ns Hf2. inversion Hf2 as [|n1 x1 ns1 xs1 H1 Hr1]; subst. inversion Hr1 as [|n2 x2 ns2 xs2 H2 Hr2]; subst. inversion Hr2; subst.
+      unfold cbody, mkh. cbn [h_kind]. rewrite H1. cbn [bind]. rewrite H2. cbn [bind]. unfold nid, key. cbn [h_id pid]. rewrite key_div. reflexivity.
+  Qed.
+
+  Lemma randgen_Q id mo c bg ss : Objs (PRandGen id mo c bg ss) -> resolvable F mo c = true -> Q bg -> Q ss ->
+    Q (PRandGen id mo c bg ss).
+  Proof.
+    intros Hv Hr Hb0 Hs0.
+    apply (multi_Q (PRandGen id mo c bg ss) [bg; ss] [SOne (GetTree.K "bit_generator_state"); SOne (GetTree.K "seed_seq_state")]
+             c mo (CodecDump.K "RandomGeneratorNode")
+             (fun js => match js with [jb; js0] => [(CodecDump.K "content", JObj [(CodecDump.K "bit_generator", jb); (CodecDump.K "seed_seq", js0)])] | _ => [] end)
+             (s "_numpy.RandomGeneratorNode") KRandomGenerator); try assumption; try reflexivity.
+    - constructor; [exact Hb0|constructor; [exact Hs0|constructor]].
+    - intros x [<-|[<-|[]]]; cbn [size need]; lia.
+    - cbn; tauto.
+    - intros [|jd [|jm [|? ?]]]; reflexivity.
+    - intros [|jd [|jm [|? ?]]] Hl; try discriminate Hl. rewrite ft_node_state by reflexivity. cbn [dget flat_map snd app].
+      change (pstr_eqb (s "file") (CodecDump.K "content")) with false. cbn iota. rewrite file_table_obj. cbn [flat_map snd app]. rewrite !app_nil_r. reflexivity.
+    - two_states.
+    - intros rec sl m [|jd [|jm [|? ?]]] Hl; try discriminate Hl. unfold build, content_child.
+      destruct (node_init _ _ _ _ _ _ _ _) as [[h m0]|]; [|reflexivity]. cbn [bind combine sub_gen].
+      change (jindex (node_state c mo (CodecDump.K "RandomGeneratorNode")
+                [(CodecDump.K "content", JObj [(CodecDump.K "bit_generator", jd); (CodecDump.K "seed_seq", jm)])] (pid (PRandGen id mo c bg ss))) (GetTree.K "content"))
+        with (Ok (A:=json) (JObj [(CodecDump.K "bit_generator", jd); (CodecDump.K "seed_seq", jm)])). cbn [bind].
+      change (jindex (JObj [(CodecDump.K "bit_generator", jd); (CodecDump.K "seed_seq", jm)]) (GetTree.K "bit_generator")) with (Ok (A:=json) jd).
+      change (jindex (JObj [(CodecDump.K "bit_generator", jd); (CodecDump.K "seed_seq", jm)]) (GetTree.K "seed_seq")) with (Ok (A:=json) jm). cbn [bind].
+      destruct (rec [] (SOne (GetTree.K "bit_generator_state")) m0 jd) as [[a m1]|]; [|reflexivity]. cbn [bind].
+      destruct (rec [] (SOne (GetTree.K "seed_seq_state")) m1 jm) as [[b m2]|]; reflexivity.
+    - intros R cf sl ns Hf2. inversion Hf2 as [|n1 x1 ns1 xs1 H1 Hr1]; subst. inversion Hr1 as [|n2 x2 ns2 xs2 H2 Hr2]; subst. inversion Hr2; subst.
+      unfold cbody, mkh. cbn [h_kind]. rewrite H2. cbn [bind]. rewrite H1. cbn [bind].
+      fold (mkh sl KRandomGenerator (s "_numpy.RandomGeneratorNode") (pid (PRandGen id mo c bg ss)) c mo JNull).
+      unfold resolvable in Hr. apply andb_prop in Hr. destruct Hr as [Hmiss Hne]. apply negb_true_iff in Hmiss.
+      erewrite gt_ok; [|reflexivity|reflexivity| | |destruct HC as [_ ->]; exact Hmiss].
+      + cbn [bind]. rewrite nid_mkh. reflexivity.
+      + destruct mo; [discriminate Hne|discriminate].
+      + destruct mo; [discriminate Hne|]. destruct c; [discriminate Hne|discriminate].
+  Qed.
+
+  Lemma randstate_Q id mo c x : Objs (PRandState id mo c x) -> resolvable F mo c = true -> Q x -> Q (PRandState id mo c x).
+  Proof.
+    intros Hv Hr Hx.
+    apply (single_Q (PRandState id mo c x) x c mo (CodecDump.K "RandomStateNode") (fun jx => [(CodecDump.K "content", jx)])
+             (s "_numpy.RandomStateNode") KRandomState (GetTree.K "content")); try assumption; try reflexivity;
+      try (cbn [size need]; lia); [cbn; tauto| |].
+    { intros jx. rewrite ft_node_state by reflexivity. cbn [dget flat_map snd app]. change (pstr_eqb (s "file") (CodecDump.K "content")) with false.
+      cbn iota. rewrite app_nil_r. reflexivity. }
+    intros R cf sl n Hn. cbn [pid]. unfold cbody, mkh. cbn [h_kind]. fold (mkh sl KRandomState (s "_numpy.RandomStateNode") id c mo JNull).
+    unfold resolvable in Hr. apply andb_prop in Hr. destruct Hr as [Hmiss Hne]. apply negb_true_iff in Hmiss.
+    erewrite gt_ok; [|reflexivity|reflexivity| | |destruct HC as [_ ->]; exact Hmiss].
+    - cbn [bind]. rewrite Hn. cbn [bind]. rewrite nid_mkh. reflexivity.
+    - destruct mo; [discriminate Hne|discriminate].
+    - destruct mo; [discriminate Hne|]. destruct c; [discriminate Hne|discriminate].
+  Qed.
+
+  Definition partial_ok (a k : pval) : Prop :=
+    match a, k with PSeq QTuple _ _ _ _ _, PDict _ _ _ _ => True | _, _ => False end.
+
+  Lemma partial_Q id f a k n : Objs (PPartial id (s "functools") (s "partial") f a k n) -> partial_ok a k ->
+    Q f -> Q a -> Q k -> Q n -> Q (PPartial id (s "functools") (s "partial") f a k n).
+  Proof.
+    intros Hv Hok Hf Ha Hk0 Hn0.
+    apply (multi_Q (PPartial id (s "functools") (s "partial") f a k n) [f; a; k; n]
+             [SOne (GetTree.K "func"); SOne (GetTree.K "args"); SOne (GetTree.K "kwds"); SOne (GetTree.K "namespace")]
+             (s "partial") (s "functools") (CodecDump.K "PartialNode")
+             (fun js => match js with [jf; ja; jk; jn] =>
+                          [(CodecDump.K "content", JObj [(CodecDump.K "func", jf); (CodecDump.K "args", ja); (CodecDump.K "kwds", jk); (CodecDump.K "namespace", jn)])]
+                        | _ => [] end)
+             (s "_general.PartialNode") KPartial); try assumption; try reflexivity.
+    - constructor; [exact Hf|constructor; [exact Ha|constructor; [exact Hk0|constructor; [exact Hn0|constructor]]]].
+    - intros x [<-|[<-|[<-|[<-|[]]]]]; cbn [size need]; lia.
+    - cbn; tauto.
+    - intros [|j1 [|j2 [|j3 [|j4 [|? ?]]]]]; reflexivity.
+    - intros [|j1 [|j2 [|j3 [|j4 [|? ?]]]]] Hl; try discriminate Hl. rewrite ft_node_state by reflexivity. cbn [dget flat_map snd app].
+      change (pstr_eqb (s "file") (CodecDump.K "content")) with false. cbn iota. rewrite file_table_obj. cbn [flat_map snd app]. rewrite !app_nil_r. reflexivity.
+    - two_states.
+    - intros rec sl m [|j1 [|j2 [|j3 [|j4 [|? ?]]]]] Hl; try discriminate Hl. unfold build, content_child.
+      destruct (node_init _ _ _ _ _ _ _ _) as [[h m0]|]; [|reflexivity]. cbn [bind combine sub_gen].
+      set (cj := JObj [(CodecDump.K "func", j1); (CodecDump.K "args", j2); (CodecDump.K "kwds", j3); (CodecDump.K "namespace", j4)]).
+      change (jindex (node_state (s "partial") (s "functools") (CodecDump.K "PartialNode") [(CodecDump.K "content", cj)]
+                (pid (PPartial id (s "functools") (s "partial") f a k n))) (GetTree.K "content")) with (Ok (A:=json) cj). cbn [bind].
+      change (jindex cj (GetTree.K "func")) with (Ok (A:=json) j1). change (jindex cj (GetTree.K "args")) with (Ok (A:=json) j2).
+      change (jindex cj (GetTree.K "kwds")) with (Ok (A:=json) j3). change (jindex cj (GetTree.K "namespace")) with (Ok (A:=json) j4). cbn [bind].
+      destruct (rec [] (SOne (GetTree.K "func")) m0 j1) as [[n1 m1]|]; [|reflexivity]. cbn [bind].
+      destruct (rec [] (SOne (GetTree.K "args")) m1 j2) as [[n2 m2]|]; [|reflexivity]. cbn [bind].
+      destruct (rec [] (SOne (GetTree.K "kwds")) m2 j3) as [[n3 m3]|]; [|reflexivity]. cbn [bind].
+      destruct (rec [] (SOne (GetTree.K "namespace")) m3 j4) as [[n4 m4]|]; reflexivity.
+    - intros R cf sl ns Hf2. inversion Hf2 as [|n1 x1 ns1 xs1 H1 Hr1]; subst. inversion Hr1 as [|n2 x2 ns2 xs2 H2 Hr2]; subst.
+      inversion Hr2 as [|n3 x3 ns3 xs3 H3 Hr3]; subst. inversion Hr3 as [|n4 x4 ns4 xs4 H4 Hr4]; subst. inversion Hr4; subst.
+      unfold cbody, mkh. cbn [h_kind]. rewrite H1. cbn [bind]. rewrite H2. cbn [bind]. rewrite H3. cbn [bind]. rewrite H4. cbn [bind].
+      unfold partial_ok in Hok. destruct a; try contradiction. destruct q; try contradiction. destruct k; try contradiction.
+      unfold nid, key. cbn [h_id pid]. rewrite key_div. reflexivity.
+  Qed.
+
   (* attrgetter / itemgetter / methodcaller: __reduce__()[1] is a non-empty tuple the constructor accepts *)
   Definition opfunc_attrs_ok (c : pstr) (attrs : pval) : Prop :=
     match attrs with
@@ -935,7 +1518,9 @@ Section Share.
     intros Hv Hr Hok Ha.
     apply (single_Q (POpFunc id c attrs) attrs c (s "operator") (CodecDump.K "OperatorFuncNode") (fun jx => [(CodecDump.K "attrs", jx)])
              (s "_general.OperatorFuncNode") KOperatorFunc (GetTree.K "attrs")); try assumption; try reflexivity;
-      try (cbn [size need]; lia); [cbn; tauto|].
+      try (cbn [size need]; lia); [cbn; tauto| |].
+    { intros jx. rewrite ft_node_state by reflexivity. cbn [dget flat_map snd app]. change (pstr_eqb (s "file") (CodecDump.K "attrs")) with false.
+      cbn iota. rewrite app_nil_r. reflexivity. }
     intros R cf sl n Hn. cbn [pid]. unfold cbody, mkh. cbn [h_kind]. fold (mkh sl KOperatorFunc (s "_general.OperatorFuncNode") id c (s "operator") JNull).
     unfold resolvable in Hr. apply andb_prop in Hr. destruct Hr as [Hmiss Hne]. apply negb_true_iff in Hmiss.
     erewrite gt_ok; [|reflexivity|reflexivity|apply lit_ne; discriminate| |destruct HC as [_ ->]; exact Hmiss].
@@ -964,6 +1549,12 @@ Section Share.
     | PSlice _ a b c => bound_supported a = true /\ bound_supported b = true /\ bound_supported c = true
     | PFunc _ mo c | PType _ mo c => resolvable F mo c = true
     | POpFunc _ c a => resolvable F (s "operator") c = true /\ opfunc_attrs_ok c a /\ vok a
+    | PArr _ gen mo c _ => arr_cls_ok gen mo c
+    | PSparse _ _ _ _ | PDType _ _ => True
+    | PMasked _ mo c d k => mo = s "numpy.ma" /\ c = s "MaskedArray" /\ vok d /\ vok k
+    | PRandState _ mo c x => resolvable F mo c = true /\ vok x
+    | PRandGen _ mo c bg ss => resolvable F mo c = true /\ vok bg /\ vok ss
+    | PPartial _ mo c f a k n => mo = s "functools" /\ c = s "partial" /\ partial_ok a k /\ vok f /\ vok a /\ vok k /\ vok n
     | _ => False
     end.
 
@@ -985,6 +1576,9 @@ Section Share.
     - intros v Hl Hv. destruct v; try discriminate Hl; cbn [vok] in Hv; destruct Hv as [Ho Hv]; try contradiction.
       + apply scalar_Q; assumption.
       + destruct Hv as [Ha [Hb Hc0]]. apply slice_Q; assumption.
+      + apply arr_Q; assumption.
+      + apply dtype_Q; assumption.
+      + apply sparse_Q; assumption.
       + apply func_Q; assumption.
       + apply type_Q; assumption.
     - intros q id mo c nt l IH [Ho [-> [-> [Hc Hall]]]]. apply seq_Q; [exact Ho|exact Hc|].
@@ -994,10 +1588,10 @@ Section Share.
     - intros id mo c f l IHf IH [Ho [-> [-> [Hi [Hf Hvals]]]]]. apply defdict_Q; try assumption; [apply IHf; exact Hf|].
       apply Forall_map_snd. eapply Forall_imp2; [exact IH|apply vok_vals; exact Hvals].
     - intros; cbn [vok] in *; tauto.
-    - intros; cbn [vok] in *; tauto.
-    - intros; cbn [vok] in *; tauto.
-    - intros; cbn [vok] in *; tauto.
-    - intros; cbn [vok] in *; tauto.
+    - intros id mo c d k IHd IHk [Ho [-> [-> [Hd Hk0]]]]. apply masked_Q; auto.
+    - intros id mo c x IHx [Ho [Hr Hx]]. apply randstate_Q; auto.
+    - intros id mo c x y IHx IHy [Ho [Hr [Hx Hy]]]. apply randgen_Q; auto.
+    - intros id mo c f a k n IHf IHa IHk IHn [Ho [-> [-> [Hok [Hf [Ha [Hk0 Hn0]]]]]]]. apply partial_Q; auto.
     - intros id c a IHa [Ho [Hr [Hok Hva]]]. apply opfunc_Q; try assumption. apply IHa. exact Hva.
     - intros; cbn [vok] in *; tauto.
     - intros; cbn [vok] in *; tauto.
@@ -1006,12 +1600,14 @@ Section Share.
   (* closing the loop: in the root tree every memoised id of an object resolves to a node constructing it *)
   Theorem root_construct v st j st' fuel R m' :
     vok v -> get_state D v st = Ok (j, st') -> (base <= d_next st)%Z ->
+    Pre st j st' ->
     (need v <= fuel)%nat -> get_tree fuel E proto [] (SOne (GetTree.K "root")) [] j = Ok (R, m') ->
     forall cf, (S (2 * need v) <= cf)%nat -> construct_val C files R cf R = Ok v.
   Proof.
-    intros Hv Hg Hb Hn Ht. destruct (vok_Q v Hv _ _ _ Hg Hb) as [_ [_ HQ]].
+    intros Hv Hg Hb Hpre Hn Ht. destruct (vok_Q v Hv _ _ _ Hg Hb) as [_ [_ [_ HQ]]].
     destruct (HQ fuel [] (SOne (GetTree.K "root")) Hn) as [n [m1 [Ht' [_ [_ [_ [Hgr [_ [Hsp Hal]]]]]]]]].
     { intros h Hh. discriminate Hh. }
+    { exact Hpre. }
     rewrite Ht in Ht'. injection Ht' as <- <-.
     assert (HmR : forall mt, mono mt m' -> minR mt R).
     { intros mt Hmt h Hh. destruct (Hgr h (Hmt h Hh)) as [H|H]; [discriminate H|]. cbn [flat_map] in H. rewrite app_nil_r in H. exact H. }
@@ -1023,5 +1619,17 @@ Section Share.
       - apply key_inj in Hk. assert (w' = w) by (apply Ofun; auto). subst w'.
         apply Hspn; [exact Hsub|apply HmR; exact Hmt|]. eapply HG_mono; [|exact IHK]. lia. }
     apply (Hsp R); [apply sub_refl|intros h Hh; discriminate Hh|apply HGall].
+  Qed.
+
+  (* one file name per id in the file table *)
+  Lemma FTd_one j : FTd j -> forall h x1 x2, In (h, x1) (file_table j) -> In (h, x2) (file_table j) -> x1 = x2.
+  Proof.
+    intros H h x1 x2 H1 H2. destruct (H h x1 H1) as [i1 [Hk1 A1]]. destruct (H h x2 H2) as [i2 [Hk2 A2]].
+    assert (i1 = i2) by (apply key_inj; congruence). subst i2.
+    destruct A1 as [[w1 [f1 [b1 [Hw1 [Hp1 [Ho1 ->]]]]]]|[Hb1 ->]]; destruct A2 as [[w2 [f2 [b2 [Hw2 [Hp2 [Ho2 ->]]]]]]|[Hb2 ->]].
+    - assert (w1 = w2) by (apply Ofun; congruence). subst w2. congruence.
+    - pose proof (Oid _ Hw1). lia.
+    - pose proof (Oid _ Hw2). lia.
+    - reflexivity.
   Qed.
 End Share.
